@@ -112,7 +112,8 @@ def c01(tier, seed):
         ("G1", {"n_grammars": _sizes(tier, 700, 12000)}),
         ("G2", {"n": _sizes(tier, 500, 8000), "stack": True}),
         ("X", {"cases": gen.stack_cases(seed + 7, _sizes(tier, 400, 6000))}),
-        ("X", {"cases": gen.skip_trivia_cases() + gen.skip_name_cases() + gen.opt_cases(seed + 5, _sizes(tier, 150, 3000))}),
+        ("X", {"cases": gen.skip_trivia_cases() + gen.skip_name_cases() + gen.rule_name_cases()
+                         + gen.opt_cases(seed + 5, _sizes(tier, 150, 3000))}),
         ("G3", {}),
     ], ["C01"])
     r.rule = RULE_PARSE + " Judge: tree / furthest_pos of IG vs I and OG vs O; generated source loads; generate() twice is identical."
